@@ -212,6 +212,25 @@ impl IoHandle {
             Some(sender) => sender,
             None => return Err(SendError(command)),
         };
+        #[cfg(nomt_verif)]
+        if let IoKind::Write(fd, pn, _) | IoKind::WriteArc(fd, pn, _) | IoKind::WriteRaw(fd, pn, _) =
+            command.kind
+        {
+            // An injected failure completes the command with an error without performing it.
+            if let Err(e) = crate::verif_hook::begin(
+                crate::verif_hook::Kind::Write,
+                fd,
+                pn * PAGE_SIZE as u64,
+                PAGE_SIZE as u64,
+                "io.send",
+            ) {
+                let _ = self.completion_sender.send(CompleteIo {
+                    command,
+                    result: Err(e),
+                });
+                return Ok(());
+            }
+        }
         sender
             .send(IoPacket {
                 command,
